@@ -414,7 +414,7 @@ impl Category {
             Ok(Category::Compound(w)) => nibble_kind(value as u8) == 2 && w == nibble_width(value as u8),
             Ok(Category::Array(w)) => nibble_kind(value as u8) == 3 && w == nibble_width(value as u8),
             Err(_) => value is DescribedType,
-        }),                                                                                                      // [C05.format-code.width-by-constructor] [C03.format-code.width-by-constructor] the category and width the scanner uses for a format code are the ones its high nibble stands for in the AMQP type system                                                                                                      // [C04.scan.width-table] every variable-width, compound and array constructor has a 1- or 4-byte size field: the scanner's `unreachable!()` really is
+        }),                                                                                                      // [C05.format-code.width-by-constructor] [C03.format-code.width-by-constructor] [C20.format-code.width-by-constructor] [C04.format-code.width-by-constructor] the category and width the scanner uses for a format code are the ones its high nibble stands for in the AMQP type system                                                                                                      // [C04.scan.width-table] every variable-width, compound and array constructor has a 1- or 4-byte size field: the scanner's `unreachable!()` really is
 //@@ end
 }
 
